@@ -88,6 +88,14 @@ CHECKS["C06"] = dict(
     note="trusted: renderer, projection, double-precision evaluation of terms over configured rates (1e-9), TLC; amounts, history depth and the history alphabet are bounded",
     ref="7 C06")
 
+CHECKS["C12"] = dict(
+    technique="TLA+ spec (Units.tla: the standard unit definitions as exact rationals, ounce and 2^k symbolic) model-checked by TLC; TLC-enumerated conversions over all unit pairs replayed into the code; random traces validated by TLC (Trace.tla)",
+    text="TLC model-checks inverse, transitivity and linearity of conversion over all pairs / triples of the 33-unit table, that kinds never mix, and the definitions quoted in the property; "
+         "enumerates all 1,089 ordered unit pairs x 3 amounts (cross-kind pairs must be refused), literals in every spelling and arithmetic, replayed under two (thorough: four) separator "
+         "configurations with every keyword; random amounts, pairs and operations are executed and validated by TLC.",
+    note="trusted: renderer, projection, double-precision evaluation of terms with the ounce constant / large powers of two (1e-9), TLC; unit sizes are those written in spec/Units.tla",
+    ref="7 C12")
+
 NOT_YET = {
 }
 
